@@ -525,19 +525,23 @@ fn explicit_case(rng: &mut Rng, u: &Universe, equal_rank_bias: bool, nq: usize) 
       r2.sx(),
     ]));
     obs.push(Sx::L(vec![r1.sx(), r2.sx(), Sx::b(wf), Sx::judge(true), Sx::judge(true)]));
+    // one compact line per query (meta of 40 queries x thousands of cases adds up)
     let show = |ord: &[Entry]| {
-      ord.iter().map(|(vi, y, c)| serde_json::json!({"version": u.texts[*vi], "yanked": y, "created": c})).collect::<Vec<_>>()
+      ord
+        .iter()
+        .map(|(vi, y, c)| format!("{}{}@{}", u.texts[*vi], if *y { "(yanked)" } else { "" }, c.map(|c| c.to_string()).unwrap_or("-".into())))
+        .collect::<Vec<_>>()
+        .join(" ")
     };
     let show_out = |x: &Outcome| match x {
-      Outcome::Ok(v, y) => serde_json::json!({"version": u.texts.get(*v as usize), "yanked": y}),
-      Outcome::Err(f) => serde_json::json!({"not_found_date": f}),
+      Outcome::Ok(v, y) => format!("{}{}", u.texts.get(*v as usize).cloned().unwrap_or("?".into()), if *y { " (yanked)" } else { "" }),
+      Outcome::Err(f) => format!("not found, date in error: {:?}", f),
     };
-    descr.push(serde_json::json!({
-      "info_order_1": show(&ord1), "info_order_2": show(&ord2), "options": o.json(), "requirement": u.req_texts[r],
-      "existing": existing.iter().map(|i| u.texts[*i].clone()).collect::<Vec<_>>(),
-      "cached": cached.iter().map(|i| u.texts[*i].clone()).collect::<Vec<_>>(),
-      "answer_1": show_out(&r1), "answer_2": show_out(&r2),
-    }));
+    let names = |l: &[usize]| l.iter().map(|i| u.texts[*i].clone()).collect::<Vec<_>>().join(" ");
+    descr.push(serde_json::json!(format!(
+      "registry order 1 [{}] | order 2 [{}] | options {} | requirement {} | existing [{}] | cached [{}] | answer 1: {} | answer 2: {}",
+      show(&ord1), show(&ord2), o.json(), u.req_texts[r], names(&existing), names(&cached), show_out(&r1), show_out(&r2)
+    )));
   }
   let classes = dist.keys().filter(|k| k.starts_with("out_")).count();
   let mut d: Vec<(String, u64)> = dist.into_iter().collect();
@@ -691,9 +695,20 @@ fn free_case(rng: &mut Rng, u: &Universe, nq: usize) -> Case {
           .collect(),
       ),
     ]));
-    descr.push(serde_json::json!({"requirement": u.req_texts[r], "cutoff": cutoff,
-      "items": items.iter().map(|(vi, i)| serde_json::json!({"version": u.texts[*vi], "info": i.map(|(y, c)| serde_json::json!({"yanked": y, "created": c}))})).collect::<Vec<_>>(),
-      "result": out.to_string()}));
+    descr.push(serde_json::json!(format!(
+      "requirement {} | cutoff {:?} | sequence [{}] | result {}",
+      u.req_texts[r],
+      cutoff,
+      items
+        .iter()
+        .map(|(vi, i)| match i {
+          None => format!("{}:no-info", u.texts[*vi]),
+          Some((y, c)) => format!("{}{}@{}", u.texts[*vi], if *y { "(yanked)" } else { "" }, c.map(|c| c.to_string()).unwrap_or("-".into())),
+        })
+        .collect::<Vec<_>>()
+        .join(" "),
+      out.to_string()
+    )));
     obs.push(out);
   }
   Case {
@@ -728,7 +743,7 @@ fn plan(tier: Tier, n_exh: u64) -> Plan {
   let n_gfp = small_sets(&GFP_NAMES).len() as u64;
   match tier {
     Tier::Quick => Plan { n_exh, n_wide: 700, n_explicit: 1500, n_equal: 500, n_gfp, n_free: 800 },
-    Tier::Thorough => Plan { n_exh, n_wide: 12000, n_explicit: 30000, n_equal: 10000, n_gfp, n_free: 16000 },
+    Tier::Thorough => Plan { n_exh, n_wide: 8000, n_explicit: 12000, n_equal: 4000, n_gfp, n_free: 6000 },
   }
 }
 
